@@ -1,4 +1,4 @@
-(* C20 — SVG path-data front ends emit the path they were given, transformed.  PARTIAL (see the end).
+(* C20 — SVG path-data front ends emit the path they were given, transformed.
    Proved:
    * generate.SetPathData (model PathData.set_path_data, bit-exact against the Go code on ~16k strings per
      run): for EVERY structured path in the dialect — commands with a first operand group and repeated
@@ -14,17 +14,33 @@
    * the converter: one colour register per distinct opacity (blend of transparent 0x7f with palette colour
      0x80 by trunc(255 o)), earlier registers never disturbed; every circle is a move to its left-most point
      and two relative half-turn arcs (2r, -2r); ParsePath = register call ++ path calls ++ circles ++ EndPath.
-   Not proved: the converter's own byte-level parser (ParsePathData) against a printer for its dialect —
-   it is covered by the correspondence check only; decimal-to-float conversion is taken as the model's
-   exact-rational rounding (validated against strconv by the correspondence check). *)
+   * mdicons.ParsePathData (model PathData.md_parse_path_data): for EVERY structured converter path — starts
+     with M, verbs MmLlHhVvCcSsQqTtZz, optional spaces before verbs and numbers, numbers separated by spaces
+     or merely by the next sign / letter, repeated operand groups after non-move verbs, optional trailing
+     z — the calls are exactly: StartPath(adj) for the first M, close-and-move for later moves, one call per
+     operand group with the size/offset/outSize normalisation, nothing for z/Z; no error.
+   Modelling note: decimal-to-float conversion is the model's exact-rational rounding (validated against
+   strconv / Fscanf by the correspondence check on every generated literal). *)
 From Coq Require Import Reals ZArith Bool List.
-From IVG Require Import SF NumCodec Color Calls Generator PathData GradGeomR PathR PathParse MdProofs.
+From IVG Require Import SF NumCodec Color Calls Generator PathData GradGeomR PathR PathParse MdProofs MdParse.
 Import ListNotations.
 
 Theorem set_path_data_correct : forall tr adj cs, path_ok cs = true ->
   set_path_data tr (print_path cs) adj = (path_calls tr adj cs, PDOk).
 Proof. exact PathParse.set_path_data_correct. Qed.
 Print Assumptions set_path_data_correct.
+
+Theorem md_parse_path_data_correct : forall adj size ox oy outsize cs tsp, mpath_ok cs tsp = true ->
+  md_parse_path_data (print_mpath cs tsp ++ [122]%Z) adj size ox oy outsize = (mpath_calls adj size ox oy outsize cs, true).
+Proof. exact MdParse.md_parse_path_data_correct. Qed.
+Print Assumptions md_parse_path_data_correct.
+
+(* the same without the optional final z (ParsePathData strips one trailing z and runs this loop) *)
+Theorem md_loop_correct : forall adj size ox oy outsize cs tsp, mpath_ok cs tsp = true ->
+  let d := print_mpath cs tsp in
+  md_loop (S (length d)) adj size ox oy outsize false 0 false (repeat 0%Z 6) d = (mpath_calls adj size ox oy outsize cs, true).
+Proof. exact MdParse.md_loop_correct. Qed.
+Print Assumptions md_loop_correct.
 
 Theorem concat_is_composition : forall (l : list (list R)) (x y : R),
   mul_aff3_gen GR x y (concat_gen GR l) = fold_left applyR l (x, y).
@@ -124,4 +140,18 @@ Example ex_in_dialect : path_ok ex_path = true.
 Proof. vm_compute. reflexivity. Qed.
 Example ex_calls : map (fun c => match c with CStartPath _ _ _ => 1 | CDraw op _ => op | CArc _ _ _ _ _ _ _ _ => 2 | CEndPath => 3 | _ => 0 end)
                        (path_calls None 0 ex_path) = [1; 108; 108; opy; 108; 2; 3].
+Proof. vm_compute. reflexivity. Qed.
+
+(* non-vacuity for the converter: "M1 2l3-4 5 6 zM7 8h-.5" *)
+Definition mk (sp : nat) (sg ip : list Z) (fr : option (list Z)) := mkMnum sp sg ip fr.
+Definition ex_mpath : list mcmd :=
+  [ MCmd 0 77 [mk 0 [] [49] None; mk 1 [] [50] None] [];
+    MCmd 0 108 [mk 0 [] [51] None; mk 0 [45] [52] None] [[mk 1 [] [53] None; mk 1 [] [54] None]];
+    MZ 1 122;
+    MCmd 0 77 [mk 0 [] [55] None; mk 1 [] [56] None] [];
+    MCmd 0 104 [mk 0 [45] [] (Some [53])] [] ].
+Example ex_m_in_dialect : mpath_ok ex_mpath 0 = true.
+Proof. vm_compute. reflexivity. Qed.
+Example ex_m_calls : map (fun c => match c with CStartPath _ _ _ => 1 | CDraw op _ => op | _ => 0 end)
+                         (mpath_calls 0 (of_Z F32 24) 0 0 (of_Z F32 48) ex_mpath) = [1; 108; 108; opY; 104].
 Proof. vm_compute. reflexivity. Qed.
